@@ -248,6 +248,28 @@ def gen_stop(tier, rng):
     return out
 
 
+def gen_stop_traffic(tier, rng):
+    """Stop while traffic is flowing: the run loop is not parked in Read but between two iterations (gate window,
+    or just released by a consumer), further envelopes are already waiting on the shared transport and the
+    transport hands buffered data out before it looks at the context. Go's select decides whether the envelope in
+    hand still goes to its reader; either way nothing crashes, Run returns, nobody hangs."""
+    out = []
+    reps = 12 if tier == 'thorough' else 4
+    for rep in range(reps):
+        for nxt in ('a', 'b', 'ab', 'ba', 'aab'):          # keys of the envelopes already waiting behind the one in hand
+            for reader in (True, False):
+                steps = [IN('a', 't0'), LR('a'), ARM, IN('a', 't1')]
+                if reader:
+                    steps.append(dict(LR('a'), nw=True))
+                steps += [IN(k, 'n%d' % i) for i, k in enumerate(nxt)]
+                steps += [STOP, REL, Q]
+                steps += [dict(LR(k), nw=True) for k in sorted(set(nxt))] + [Q]
+                d = _scen('raw/stop-traffic next=%s reader=%d #%d' % (nxt, reader, rep), 'raw', steps)
+                d['datafirst'] = True
+                out.append(d)
+    return out
+
+
 def gen_writer(tier, rng):
     out = []
     for nw in (1, 2, 3):
@@ -356,6 +378,7 @@ def generate(tier, rng):
     out += gen_wide(tier, rng)
     out += gen_cancel(tier, rng)
     out += gen_stop(tier, rng)
+    out += gen_stop_traffic(tier, rng)
     out += gen_writer(tier, rng)
     out += gen_rpc(tier, rng)
     if tier != 'thorough' and len(out) > 340:
